@@ -251,8 +251,12 @@ func examineSnaps(
 				obsoleteTests = append(obsoleteTests, testID)
 				hasDiffs = true
 
-				removeSnapshot(s)
-				continue
+				// obsolete snapshots are only dropped when cleaning; a file that is
+				// merely sorted keeps them.
+				if update {
+					removeSnapshot(s)
+					continue
+				}
 			}
 
 			for s.Scan() {
